@@ -35,7 +35,7 @@ for pid,(lvl,text,ref,tech) in sorted(claimed.items()):
       'replay_cmd_template': '/venv/bin/python /verif/dst/cli.py replay {path}',
       'engine': 'dst',
       'level_claimed': {'category': lvl, 'text': text, 'design_ref': ref},
-      'level_note': 'Trusted base: the stubs in /verif/dst/seams.py (SimPool, SimEvent, SimProc, fork model, simulated clock) model multiprocessing/subprocess as described in DESIGN.md 2.4; the reference tokenizer and acceptance rule in /verif/dst; command models are deterministic functions of the token sequence. Not modelled: worker death, spawn start method, SIGINT delivered to workers.',
+      'level_note': 'Trusted base: the stubs in /verif/dst/seams.py (SimPool, SimEvent, SimProc, fork model, simulated clock) model multiprocessing/subprocess as described in DESIGN.md 2.4; the reference tokenizer and acceptance rule in /verif/dst; command models are deterministic functions of the token sequence. Threads the program starts itself (threading, concurrent.futures) become actors of the scheduler. Not modelled: worker death, spawn start method, SIGINT delivered to workers, partial output of a killed command.',
       'technique': tech,
     })
 m = {
